@@ -1,5 +1,6 @@
 """C02 — exactly the blocks of heights start..min(end,tip) are delivered, once, ascending."""
 import itertools
+import struct
 from ..chain import *
 from .. import gen, core, run
 
@@ -14,7 +15,7 @@ def chain_for(r, coin, n):
 def explore(ck):
     r = ck.rng; quick = ck.tier == 'quick'
     ck.rule = ('bounded-exhaustive: every chain length T+1 (T <= %d) x every accepted (--start s, --end e) incl. absent, e below/at/above the tip, s up to T, '
-               'x 5 callbacks (callback rotates per (T,s,e) in the quick tier, all five in the thorough tier) x --verify on/off; plus high-height windows '
+               'x 5 callbacks (callback rotates per (T,s,e) in the quick tier, all five in the thorough tier) x --verify on/off; plus high-height windows, chains of 140..520 blocks and blocks ping-ponging between two blk files '
                '(multi-byte VarInt heights). Non-trivial: s > 0 or e <= T (a bound cuts the chain); distinct by (T,s,e,callback).' % (4 if quick else 9))
     cases = []; expect = {}
     Tmax = 4 if quick else 9
@@ -39,6 +40,18 @@ def explore(ck):
             c.verify = True; c.meta['cbs'] = ['csv', 'stats'] if quick else CBS; c.meta['T'] = H - 1 + n
             expect[c.id] = list(range(s, min(e, H - 1 + n) + 1 if e is not None else H + n))
             cases.append(c)
+    # long chains (a read-ahead / batching defect needs well over a hundred blocks) and blocks ping-ponging between blk files
+    for T, fileplan in ([(140, 'single'), (150, 'pingpong')] if quick else [(140, 'single'), (300, 'pingpong'), (520, 'single'), (260, 'pingpong')]):
+        coin = r.choice(gen.ALL_COINS); blocks = []; prev = b'\x00' * 32
+        for h in range(T + 1):
+            b = Block(prev, [coinbase_tx(h, [(h + 1, P2PKH(gen.rb(r, 20))), (0, b'\x6a\x02' + struct.pack('<H', h))])], time=1300000000 + h, nonce=h); blocks.append(b); prev = b.hash
+        for s, e in [(0, None), (10, T - 10), (T - 135, T + 50), (3, 131), (T - 129, None)]:
+            c = Case('long%d_%s_s%d_e%s' % (T, fileplan, s, e), coin)
+            for h, b in enumerate(blocks):
+                f = 0 if fileplan == 'single' else (1 if (h % 7 in (4, 6)) else 0)
+                off = c.put_block(f, b.raw); c.add_record(b, h, f, off)
+            c.start = s; c.end = e; c.verify = s > 0; c.meta['cbs'] = ['csv', 'opreturn'] if quick else CBS; c.meta['T'] = T
+            expect[c.id] = list(range(s, min(e, T) + 1 if e is not None else T + 1)); cases.append(c)
     def nontrivial(c, m):
         T = c.meta['T']
         return (T, c.start, c.end, tuple(c.meta['cbs'])) if (c.start > 0 or (c.end is not None and c.end <= T)) else None
